@@ -181,6 +181,47 @@ theorem c07_bad_message_isolated (c : SubCfg) (pre post : List Packet) (bad : Pa
   rw [r1.2, r2.2]
   simp [List.filterMap_append, hbad.1]
 
+/-- NO CAPACITY. After ANY number of rejected messages (`bads`: a list of any length, each one rejected
+by the pipeline — short, undecodable, foreign operation, unreadable payload — in any mix), preceded by any
+traffic, the next good message is delivered: the log grows by exactly its delivery and the worker is
+alive. The model has no counter, queue bound or slot that rejected messages could exhaust; the code must
+have none either — tied by the long cases of suite c07rt (more rejected messages of each kind, more
+messages in total and more Subscribe/Unsubscribe cycles than twice every channel capacity found in the
+source of lib/go and of the stomp client). -/
+theorem c07_any_number_rejected_then_delivered (c : SubCfg) (pre bads : List Packet) (good : Packet)
+    (dl : Delivery)
+    (hpre : ∀ p ∈ pre, (handle c p).isCrash = false)
+    (hbad : ∀ p ∈ bads, deliver c p = none ∧ (handle c p).isCrash = false)
+    (hgood : handle c good = .delivered dl) :
+    (WState.init.recvAll c (pre ++ bads ++ [good])).log = (WState.init.recvAll c pre).log ++ [dl] ∧
+    (WState.init.recvAll c (pre ++ bads ++ [good])).alive = true ∧
+    (∀ n (bad : Packet), deliver c bad = none ∧ (handle c bad).isCrash = false →
+      (WState.init.recvAll c (pre ++ List.replicate n bad ++ [good])).log = (WState.init.recvAll c pre).log ++ [dl]) := by
+  have key : ∀ (bs : List Packet), (∀ p ∈ bs, deliver c p = none ∧ (handle c p).isCrash = false) →
+      (WState.init.recvAll c (pre ++ bs ++ [good])).log = (WState.init.recvAll c pre).log ++ [dl] ∧
+      (WState.init.recvAll c (pre ++ bs ++ [good])).alive = true := by
+    intro bs hbs
+    have hg : (handle c good).isCrash = false := by rw [hgood]; rfl
+    have hall : ∀ p ∈ pre ++ bs ++ [good], (handle c p).isCrash = false := by
+      intro p hp
+      simp only [List.mem_append, List.mem_singleton] at hp
+      rcases hp with (h | h) | h
+      · exact hpre p h
+      · exact (hbs p h).2
+      · rw [h]; exact hg
+    have r1 := recvAll_log c _ WState.init rfl hall
+    have r2 := recvAll_log c pre WState.init rfl hpre
+    refine ⟨?_, r1.1⟩
+    rw [r1.2, r2.2]
+    have hb : bs.filterMap (deliver c) = [] := by
+      apply List.filterMap_eq_nil_iff.mpr
+      intro p hp
+      exact (hbs p hp).1
+    simp [List.filterMap_append, hb, deliver_some c good dl hgood]
+  refine ⟨(key bads hbad).1, (key bads hbad).2, ?_⟩
+  intro n bad hb
+  exact (key (List.replicate n bad) (fun p hp => by rw [List.eq_of_mem_replicate hp]; exact hb)).1
+
 /-- The classes of malformed messages, for EVERY byte string `data`: shorter than the frame-size
 prefix; header block that does not decode (any error of the C04 reader — it never panics, C05);
 no `_opid`; nothing / garbage after the header block; an envelope naming another operation.
